@@ -1,5 +1,8 @@
 use std::cmp;
+#[cfg(not(may_verif))]
 use std::collections::{BinaryHeap, HashMap};
+#[cfg(may_verif)]
+use self::verif_tl::{BinaryHeap, HashMap};
 use std::mem;
 #[cfg(not(may_verif))]
 use std::sync::atomic::{AtomicUsize, Ordering};
@@ -11,8 +14,14 @@ use std::time::{Duration, Instant};
 
 use may_queue::mpsc::Queue;
 use may_queue::mpsc_list_v1::Entry;
+#[cfg(not(may_verif))]
 use may_queue::mpsc_list_v1::Queue as TimeoutQueue;
+#[cfg(may_verif)]
+use self::verif_tl::TimeoutQueue;
+#[cfg(not(may_verif))]
 use parking_lot::{Mutex, RwLock};
+#[cfg(may_verif)]
+use self::verif_tl::{Mutex, RwLock};
 
 use crate::sync::AtomicOption;
 
@@ -25,10 +34,20 @@ fn get_instant() -> &'static Instant {
     unsafe { START_TIME.assume_init_ref() }
 }
 // get the current wall clock in ns
+#[cfg(not(may_verif))]
 #[inline]
 pub fn now() -> u64 {
     // we need a Monotonic Clock here
     get_instant().elapsed().as_nanos() as u64
+}
+// twin of `now` for the verification harness: its virtual clock, when it provides one
+#[cfg(may_verif)]
+#[inline]
+pub fn now() -> u64 {
+    match crate::verif::now() {
+        Some(t) => t,
+        None => get_instant().elapsed().as_nanos() as u64,
+    }
 }
 
 // timeout event data
@@ -168,6 +187,8 @@ impl<T> TimeOutList<T> {
         }
 
         let interval_list = Arc::new(TimeoutQueueWrapper::<T>::new());
+        #[cfg(may_verif)]
+        crate::verif::born("TlList", Arc::as_ptr(&interval_list));
         let ret = interval_list.inner.push(timeout).0;
         (*interval_map_w).insert(interval, interval_list.clone());
         // drop the write lock here
@@ -300,6 +321,265 @@ impl<T> TimerThread<T> {
                 Some(time) => thread::park_timeout(Duration::from_nanos(time)),
                 None => thread::park(),
             }
+        }
+    }
+}
+
+/// verification twins of the containers of the timer list (compiled only with `--cfg may_verif`):
+/// same interface as the real ones, one abstract event per operation.
+///
+/// * `TimeoutQueue` wraps `may_queue::mpsc_list_v1::Queue`: `tl.push time data -> is_head`,
+///   `tl.pop_if -> time | -1`, `tl.peek -> time | -1`, `tl.is_empty -> 0/1`; the atomic steps of the queue
+///   itself stay quiet (they are the subject of their own layer)
+/// * `Mutex` / `RwLock` wrap the parking_lot locks: taking a lock is a schedule point (`lock` event); while a
+///   guard is alive the thread tells the harness (`cs enter/leave` notes) not to de-schedule it, because a
+///   deterministic controller that stops a lock holder would block the next taker in the OS
+/// * `BinaryHeap` / `HashMap` report `bh.push/peek/pop`, `map.get/insert/remove/len`
+#[cfg(may_verif)]
+mod verif_tl {
+    use super::{IntervalEntry, TimeoutData};
+    use crate::verif::{item_id, note, op, quiet};
+    use may_queue::mpsc_list_v1::{Entry, Queue};
+    use std::ops::{Deref, DerefMut};
+    use std::panic::Location;
+
+    const NONE: u64 = u64::MAX;
+
+    pub trait Timed {
+        fn time(&self) -> u64;
+        fn id(&self) -> u64;
+    }
+    impl<T> Timed for TimeoutData<T> {
+        fn time(&self) -> u64 {
+            self.time
+        }
+        fn id(&self) -> u64 {
+            item_id(&self.data)
+        }
+    }
+    impl<T> Timed for IntervalEntry<T> {
+        fn time(&self) -> u64 {
+            self.time
+        }
+        fn id(&self) -> u64 {
+            self.interval
+        }
+    }
+
+    pub struct TimeoutQueue<D> {
+        q: Queue<D>,
+        site: &'static Location<'static>,
+    }
+    impl<D: Timed> TimeoutQueue<D> {
+        #[track_caller]
+        #[allow(clippy::new_without_default)]
+        pub fn new() -> Self {
+            TimeoutQueue {
+                q: Queue::new(),
+                site: Location::caller(),
+            }
+        }
+        #[inline]
+        fn a(&self) -> usize {
+            self as *const _ as usize
+        }
+        pub fn push(&self, t: D) -> (Entry<D>, bool) {
+            let mut r = None;
+            let (time, id) = (t.time(), t.id());
+            op(self.site, self.a(), "tl.push", time, id, 0, || {
+                let x = quiet(|| self.q.push(t));
+                let h = x.1 as u64;
+                r = Some(x);
+                h
+            });
+            r.unwrap()
+        }
+        pub fn is_empty(&self) -> bool {
+            op(self.site, self.a(), "tl.is_empty", 0, 0, 0, || {
+                quiet(|| self.q.is_empty()) as u64
+            }) != 0
+        }
+        /// # Safety
+        /// same contract as the wrapped queue
+        pub unsafe fn peek(&self) -> Option<&D> {
+            let mut r = None;
+            op(self.site, self.a(), "tl.peek", 0, 0, 0, || {
+                r = quiet(|| self.q.peek());
+                r.map(|d| d.time()).unwrap_or(NONE)
+            });
+            r
+        }
+        pub fn pop_if<F>(&self, f: &F) -> Option<D>
+        where
+            F: Fn(&D) -> bool,
+        {
+            let mut r = None;
+            op(self.site, self.a(), "tl.pop_if", 0, 0, 0, || {
+                r = quiet(|| self.q.pop_if(f));
+                r.as_ref().map(|d| d.time()).unwrap_or(NONE)
+            });
+            r
+        }
+    }
+
+    /// the thread must not be de-scheduled by a deterministic harness while this is alive
+    struct Critical;
+    impl Critical {
+        fn enter() -> Self {
+            note("cs", "enter");
+            Critical
+        }
+    }
+    impl Drop for Critical {
+        fn drop(&mut self) {
+            note("cs", "leave");
+        }
+    }
+
+    pub struct Guard<G> {
+        // field order = drop order: release the lock, then leave the critical region
+        g: G,
+        _c: Critical,
+    }
+    impl<G: Deref> Deref for Guard<G> {
+        type Target = G::Target;
+        fn deref(&self) -> &Self::Target {
+            &self.g
+        }
+    }
+    impl<G: DerefMut> DerefMut for Guard<G> {
+        fn deref_mut(&mut self) -> &mut Self::Target {
+            &mut self.g
+        }
+    }
+
+    pub struct Mutex<T> {
+        m: parking_lot::Mutex<T>,
+        site: &'static Location<'static>,
+    }
+    impl<T> Mutex<T> {
+        #[track_caller]
+        pub fn new(t: T) -> Self {
+            Mutex {
+                m: parking_lot::Mutex::new(t),
+                site: Location::caller(),
+            }
+        }
+        pub fn lock(&self) -> Guard<parking_lot::MutexGuard<'_, T>> {
+            op(self.site, self as *const _ as usize, "lock", 0, 0, 0, || 0);
+            let c = Critical::enter();
+            Guard {
+                g: self.m.lock(),
+                _c: c,
+            }
+        }
+    }
+
+    pub struct RwLock<T> {
+        m: parking_lot::RwLock<T>,
+        site: &'static Location<'static>,
+    }
+    impl<T> RwLock<T> {
+        #[track_caller]
+        pub fn new(t: T) -> Self {
+            RwLock {
+                m: parking_lot::RwLock::new(t),
+                site: Location::caller(),
+            }
+        }
+        pub fn read(&self) -> Guard<parking_lot::RwLockReadGuard<'_, T>> {
+            op(self.site, self as *const _ as usize, "lock", 0, 0, 0, || 0);
+            let c = Critical::enter();
+            Guard {
+                g: self.m.read(),
+                _c: c,
+            }
+        }
+        pub fn write(&self) -> Guard<parking_lot::RwLockWriteGuard<'_, T>> {
+            op(self.site, self as *const _ as usize, "lock", 1, 0, 0, || 0);
+            let c = Critical::enter();
+            Guard {
+                g: self.m.write(),
+                _c: c,
+            }
+        }
+    }
+
+    pub struct BinaryHeap<E: Ord> {
+        h: std::collections::BinaryHeap<E>,
+        site: &'static Location<'static>,
+    }
+    impl<E: Ord + Timed> BinaryHeap<E> {
+        #[track_caller]
+        #[allow(clippy::new_without_default)]
+        pub fn new() -> Self {
+            BinaryHeap {
+                h: std::collections::BinaryHeap::new(),
+                site: Location::caller(),
+            }
+        }
+        #[inline]
+        fn a(&self) -> usize {
+            self as *const _ as usize
+        }
+        pub fn push(&mut self, e: E) {
+            let (time, id) = (e.time(), e.id());
+            let (site, a) = (self.site, self.a());
+            op(site, a, "bh.push", time, id, 0, || {
+                self.h.push(e);
+                0
+            });
+        }
+        pub fn peek(&self) -> Option<&E> {
+            let r = self.h.peek();
+            op(self.site, self.a(), "bh.peek", r.map(|e| e.id()).unwrap_or(0), 0, 0, || {
+                r.map(|e| e.time()).unwrap_or(NONE)
+            });
+            r
+        }
+        pub fn pop(&mut self) -> Option<E> {
+            let r = self.h.pop();
+            op(self.site, self.a(), "bh.pop", r.as_ref().map(|e| e.id()).unwrap_or(0), 0, 0, || {
+                r.as_ref().map(|e| e.time()).unwrap_or(NONE)
+            });
+            r
+        }
+    }
+
+    pub struct HashMap<K, V> {
+        m: std::collections::HashMap<K, V>,
+        site: &'static Location<'static>,
+    }
+    impl<K: Copy + Eq + std::hash::Hash + Into<u64>, V> HashMap<K, V> {
+        #[track_caller]
+        pub fn with_capacity(n: usize) -> Self {
+            HashMap {
+                m: std::collections::HashMap::with_capacity(n),
+                site: Location::caller(),
+            }
+        }
+        #[inline]
+        fn a(&self) -> usize {
+            self as *const _ as usize
+        }
+        pub fn get(&self, k: &K) -> Option<&V> {
+            let r = self.m.get(k);
+            op(self.site, self.a(), "map.get", (*k).into(), 0, 0, || r.is_some() as u64);
+            r
+        }
+        pub fn insert(&mut self, k: K, v: V) -> Option<V> {
+            let r = self.m.insert(k, v);
+            op(self.site, self.a(), "map.insert", k.into(), 0, 0, || r.is_some() as u64);
+            r
+        }
+        pub fn remove(&mut self, k: &K) -> Option<V> {
+            let r = self.m.remove(k);
+            op(self.site, self.a(), "map.remove", (*k).into(), 0, 0, || r.is_some() as u64);
+            r
+        }
+        #[allow(clippy::len_without_is_empty)]
+        pub fn len(&self) -> usize {
+            op(self.site, self.a(), "map.len", 0, 0, 0, || self.m.len() as u64) as usize
         }
     }
 }
